@@ -16,7 +16,7 @@ from __future__ import annotations
 
 import datetime as dt_
 
-from .. import core, obs, seeds
+from .. import core, obs, seeds, worker
 from ..ref import calref, tzref
 from . import c04
 
@@ -153,13 +153,15 @@ def iv_pair(acc, mods, kind, fa, fb, z=None):
         acc.mismatch("interval", f"{kind}/range", case, comp, "canonical ranges")
         return
     key = (lambda x: (x.year, x.month, x.day)) if kind == "date" else (lambda x: (obs.fields(x), obs.offset_s(x)))
-    r1 = a + iv
-    if key(r1) != key(b):
-        acc.mismatch("interval", f"{kind}/a+(b-a)", case, {"components": comp, "result": str(r1)}, str(b))
     addkw = comp if kind != "date" else {k: comp[k] for k in ("years", "months", "weeks", "days")}
-    r2 = a.add(**addkw)
-    if key(r2) != key(b):
-        acc.mismatch("interval", f"{kind}/add(components)", case, {"components": comp, "result": str(r2)}, str(b))
+    for lbl, fn in (("a+(b-a)", lambda: a + iv), ("add(components)", lambda: a.add(**addkw))):
+        try:
+            r = fn()
+        except Exception as e:  # noqa: BLE001
+            acc.mismatch("interval", f"{kind}/{lbl}/raises-{type(e).__name__}", case, {"components": comp, "raised": str(e)[:80]}, str(b))
+            continue
+        if key(r) != key(b):
+            acc.mismatch("interval", f"{kind}/{lbl}", case, {"components": comp, "result": str(r)}, str(b))
     if iv.in_months() != 12 * comp["years"] + comp["months"] or iv.in_years() != comp["years"]:
         acc.mismatch("interval", f"{kind}/in_months", case, [iv.in_years(), iv.in_months()],
                      [comp["years"], 12 * comp["years"] + comp["months"]])
@@ -222,7 +224,8 @@ def run_shard(shard):
                     kinds = ("naive",) if bi else ("naive", "date")
                     if (n + e) % 11 == 0:
                         kinds = kinds + ("utc", "fixed")
-                    fn_pair(acc, mods, da, db, ta, tb, kinds)
+                    with worker.guarded(acc, "precise_diff", {"kind": "fn", "arg": kinds[-1], "a": list(da) + list(ta), "b": list(db) + list(tb)}):
+                        fn_pair(acc, mods, da, db, ta, tb, kinds)
         acc.sample({"start": list(calref.civil_from_days(shard["n0"])), "ends": f"start..start+{span} days",
                     "borrow_patterns": len(BORROWS), "backends": ["python", "rust"]})
     elif k == "iv":
@@ -236,7 +239,8 @@ def run_shard(shard):
                     for kind, z in shard["kinds"]:
                         if kind == "date" and bi:
                             continue
-                        iv_pair(acc, mods, kind, fa, fb, z)
+                        with worker.guarded(acc, "interval", {"kind": "iv", "arg": kind, "z": z, "a": list(fa), "b": list(fb)}):
+                            iv_pair(acc, mods, kind, fa, fb, z)
         acc.sample({"interval_pairs_from": list(calref.civil_from_days(shard["n0"])),
                     "kinds": [k for k, _ in shard["kinds"]]})
     elif k == "cross-same":
@@ -255,7 +259,8 @@ def run_shard(shard):
                         ia, ib = sa[0] * US + ta[3], sb[0] * US + tb[3]
                         if calref.civil_from_days(sa[0] // 86400) != da or calref.civil_from_days(sb[0] // 86400) != db:
                             acc.c["nontrivial"] += 1     # the UTC date differs from the local date
-                        cross_zone_pair(acc, mods, za, ia, zb, ib)
+                        with worker.guarded(acc, "interval", {"kind": "cross", "za": za, "ia": ia, "zb": zb, "ib": ib}):
+                            cross_zone_pair(acc, mods, za, ia, zb, ib)
         acc.sample({"same_offset_pairs": [list(map(str, p)) for p in shard["pairs"]], "from": list(calref.civil_from_days(shard["n0"]))})
     elif k == "cross":
         S = shard["states"]
@@ -263,7 +268,8 @@ def run_shard(shard):
             acc.c["states"] += 1
             for zb, ib in S:
                 if za != zb:
-                    cross_zone_pair(acc, mods, za, ia, zb, ib)
+                    with worker.guarded(acc, "interval", {"kind": "cross", "za": za, "ia": ia, "zb": zb, "ib": ib}):
+                        cross_zone_pair(acc, mods, za, ia, zb, ib)
     return acc.result()
 
 
